@@ -65,7 +65,7 @@ def short(t):
     ini = []
     for k, r in enumerate(t["init"]):
         a = "%d %s[%s]" % (vals[2 * k], r["a"][1], r["a"][0])
-        ini.append(a if not r["op"] else "(%s %s %d %s[%s])" % (a, r["op"], vals[2 * k + 1], r["b"][1], r["b"][0]))
+        ini.append(a if not r["op"] else "%s.%s[%s]" % (a, r["b"][1], r["b"][0]) if r["op"] == "Raw" else "(%s %s %d %s[%s])" % (a, r["op"], vals[2 * k + 1], r["b"][1], r["b"][0]))
     calls = []
     for c in t["h"]:
         if c["op"] == "Pow":
@@ -116,7 +116,10 @@ def replay(t, rep, env, stats):
         vals = [2.0, 3.0, 5.0, 7.0]
         for k, r in enumerate(t["init"]):
             a = Scalar(vals[2 * k], r["a"][1], r["a"][0])
-            if r["op"]:
+            if r["op"] == "Raw":
+                import collections
+                a = Scalar(Quantity.CreateDerived(collections.OrderedDict([(r["a"][0], [r["a"][1], 1]), (r["b"][0], [r["b"][1], 1])])), vals[2 * k])
+            elif r["op"]:
                 b = Scalar(vals[2 * k + 1], r["b"][1], r["b"][0])
                 a = a * b if r["op"] == "Mul" else a / b
             pool.append(a)
@@ -232,7 +235,9 @@ def replay(t, rep, env, stats):
                 vals = [2.0, 3.0, 5.0, 7.0]
                 for k, r in enumerate(t["init"]):
                     a = Array(mk(vals[2 * k]), r["a"][1], r["a"][0])
-                    if r["op"]:
+                    if r["op"] == "Raw":
+                        a = Array(pool[k].GetQuantity(), mk(vals[2 * k]))
+                    elif r["op"]:
                         b = Array(mk(vals[2 * k + 1]), r["b"][1], r["b"][0])
                         a = a * b if r["op"] == "Mul" else a / b
                     apool.append(a)
